@@ -12,7 +12,8 @@ from typing import Callable, Dict, List, Optional, Sequence
 from .model import Repo, AnalysisError, FuncInfo, Module, norm, squash
 
 VERIF = Path(__file__).resolve().parent.parent
-EVIDENCE_DIR = VERIF / 'evidence'
+# runs against a scratch copy (self-test, seeded changes) must not overwrite the evidence of /repo
+EVIDENCE_DIR = (VERIF / 'evidence') if not os.environ.get('VERIF_REPO') else Path(os.environ.get('VERIF_SCRATCH_EVIDENCE', '/tmp/verif-scratch-evidence'))
 REPLAY_DIR = EVIDENCE_DIR / 'replay'
 KNOWN_FILE = VERIF / 'known_findings.json'
 
